@@ -30,7 +30,10 @@ RULE = ("one case = one round: k goroutines (quick 4, thorough 8) started behind
         "ToDFA/Minimize/Isomorphic/CombineDFA/Concat; the exported Hash*/Eq*/Cmp* helpers), under "
         "GOMAXPROCS 2, 4 and 16, harness built with -race; rounds alternate: same workload with different contents, "
         "same workload with identical contents, random mix. Every goroutine's digest is compared with the digest of "
-        "the same workload run alone. distinct_nontrivial = distinct (GOMAXPROCS, workload#instance per goroutine) "
+        "the same workload run alone; iterator VALUES (All/AllByHead/Transitions of sets, tables, tries, grammar sets, automata) are "
+        "kept and re-run several times (complete, early exit, nested in themselves and around a second iterator) and every complete "
+        "run must yield the same multiset; a panic escaping a workload, an INCONSISTENT iterator or a non-reproducible sequential "
+        "digest is a failure by itself. distinct_nontrivial = distinct (GOMAXPROCS, workload#instance per goroutine) "
         "assignments; every round is non-trivial (>= 2 goroutines working concurrently). When the obligation is broken the "
         "workloads of the package named by the non-benign inventory entry run first, alone (batches cold-directed, race-directed). "
         "`cold` cases: the harness re-executes itself so that each workload is the FIRST thing a fresh process does (k goroutines "
@@ -157,6 +160,20 @@ def _because(bad_globals):
     """One line per inventory entry the translator's rules do not accept (a reviewed `unclassified` entry is still benign)."""
     return ["%s.%s (%s, %s): %s - %s" % (g["package"], g["name"], g.get("pos", ""), g["kind"], g["classification"], g["evidence"])
             for g in bad_globals if not (g["classification"] == "unclassified" and g["package"] == "internal/parsertest")]
+
+
+def _pools_involved(inv, text):
+    """Pools of the inventory whose Get/Put functions occur in the race report / differing workload output."""
+    out = []
+    for g in inv.get("globals", []):
+        ev = g.get("evidence", "")
+        if not ev.startswith("synchronised (pool)"):
+            continue
+        fns = re.findall(r"(?:Get|Put) in ([^;]*)", ev)
+        names = [f.strip().split(".")[-1].replace("$closure", "") for part in fns for f in part.split(",") if f.strip()]
+        if any(n and re.search(r"\b%s\b" % re.escape(n), text) for n in names) or g["package"] in text:
+            out.append("%s.%s (%s): %s" % (g["package"], g["name"], g.get("pos", ""), ev))
+    return out
 
 
 def _race_reports(err):
@@ -305,11 +322,6 @@ def main(run):
             if isinstance(v, int):
                 dist[k] = max(dist.get(k, 0), v) if k.startswith("max_") else dist.get(k, 0) + v
         samples += [l[:160] for l in out.split("\n") if l.startswith("race ") or l.startswith("cold ")][:2]
-        if "# UNSTABLE" in out:
-            print("BROKEN-CHECK property=C20: a workload's sequential digest is not reproducible: %s"
-                  % [l for l in out.split("\n") if l.startswith("# UNSTABLE")][:3], flush=True)
-            run.finish()
-            return 2
         if not _failing(rc, out, err):
             continue
         if rc not in (0, 3, 4, 66) and "DATA RACE" not in err and "DIFF" not in out:
@@ -330,6 +342,7 @@ def main(run):
             "racing_frames": _race_summary(reps[0]) if reps else [],
             "digest_differences": diffs,
             "non_benign_globals": bad_globals,
+            "pools_in_the_racing_code": _pools_involved(inv, (reps[0] if reps else "") + "\n".join(diffs) + " " + case),
             "broken_obligation": run.broken,
             "obligation_broken_because": _because(bad_globals) if not proof_ok else [],
             "replay_cmd": "bin/check C20 --replay <this file>   (re-runs the case under -race; schedule-dependent, repeated up to 5 times)",
